@@ -13,6 +13,30 @@ BASELINE_OFF = (
 
 # id -> (category, technique, level text, level note, design ref, engine)
 CHECKS = {
+    "C04": (
+        "model_checking",
+        "explicit enumeration of all write histories up to depth 3/4 x matching read histories on the real EoWriter/EoReader (depth-bounded E1)",
+        "Every sequence of typed writes from a 94-op menu (+ trailing strings) is written and read back on the real classes; the oracle is the property's own round-trip statement.",
+        "Depth bound 3/4; menu values at digit boundaries; excluded characters exactly as the statement excludes.",
+        "DESIGN.md section 6 C04",
+        "E1",
+    ),
+    "C06": (
+        "model_checking",
+        "explicit enumeration of chunk lists (write histories) x per-chunk read plans on the real writer/reader",
+        "All lists of 1-3 chunks over the stated field menu x every prefix/surplus read plan; in-prefix values and zero/empty surplus reads checked per execution, which implies isolation between chunks.",
+        "Bounds: <=3 chunks, <=2 fields, <=2 surplus reads; surplus values after a partial prefix not judged.",
+        "DESIGN.md section 6 C06",
+        "E1",
+    ),
+    "C09": (
+        "model_checking",
+        "explicit enumeration of writer histories (full menu depth 2/3, reduced menu depth 4/5) in lockstep with the reference writer",
+        "Every history over a 373-op menu incl. every type's limit for every numeric method, all string methods x lengths x padded, mode toggles at arbitrary points; after every step (len, bytes, mode) and accept/ValueError compared with M4.",
+        "Reference M4; non-negative ints and str arguments; depth-bounded.",
+        "DESIGN.md section 6 C09",
+        "E1",
+    ),
     "C05": (
         "model_checking",
         "explicit-state BFS to fixpoint over (real EoReader x reference reader) per data string; thorough adds TLC model + replay of every dumped edge",
@@ -70,6 +94,14 @@ CHECKS = {
         "path; peers in lockstep; several wrap-arounds covered without relying on state deduplication.",
         "Start values restricted to a finite set; reference M7 is the property's formula.",
         "DESIGN.md section 6 C13",
+        "E1",
+    ),
+    "C14": (
+        "model_checking",
+        "explicit enumeration of construction histories (depth 3/4) over 3 enum classes x 17 integers on fresh classes and a freshly reloaded metaclass; public class snapshot compared after each step",
+        "All histories up to the depth bound without deduplication; M8 oracle per construction, enum class observations unchanged, declared ordinals still resolve.",
+        "Python 3.12 enum internals; hand-written enum declarations (generated enums are exercised through the spec pipeline checks).",
+        "DESIGN.md section 6 C14",
         "E1",
     ),
 }
